@@ -82,6 +82,10 @@ CLAIMS = {
             "Every ending mode the property lists is injected - exact cut offsets, write failures and rejected certificates on scripted connections; FIN, RST, QUIT, malformed frames, peers that stop reading, failed TLS handshakes, rejected certificates and Server.Stop on real sockets with 1..32 connections in flight - and after each plan the goroutine, registry and descriptor counts must settle back to the values sampled before it.",
             "The 5 s settle budget bounds the wait for in-flight kernel events; what is judged is the final state, with the leaked goroutines' stacks / descriptor targets attached.",
             "DESIGN.md 4/C19"),
+    "C14": ("randomized concurrent workload generation (rapid) executed under the Go race detector in a child process; oracle = race reports whose racing access is in the framework, reduced to unordered access-site pairs",
+            "Workload plans (2..32 clients over every command family with churn, CONFIG SET/GET on shared parameters, registry enumeration, Stop/Start/Restart, yields and delays, plain or TLS listeners) are drawn from rapid and executed against a started server in a -race build; every report with a framework access is a violation, as is a concurrent-map abort.",
+            "The race detector only sees races that occur in an execution: detection depends on the interleavings that happen - the weakest claim of the set. The handler double is race-free, so reports concern the framework. Enumeration reads only immutable connection attributes.",
+            "DESIGN.md 4/C14"),
 }
 
 PENDING = {
